@@ -54,7 +54,14 @@ def main(tier, seed):
         k = 0
         while len(cases) < n and k < n * 20:
             k += 1
-            p = rand_prog(rng, grammar=True)
+            if rng.random() < 0.08:
+                # a lone return heart late in the program, before any jump of its own (falls through unless a
+                # return point survived a `clear`: seeded change C12-clear-keeps-return-point)
+                p = []
+                for _ in range(rng.randint(3, 6)): p += print_char(rng.choice([65, 66, 67, 10]))
+                p += [(0, 1, 2, leaf(13))] + print_char(rng.choice([68, 69])) + [(1, 1, 1, (1, leaf(13), None))]
+            else:
+                p = rand_prog(rng, grammar=True)
             if has_input_cmd(p): continue
             # keep programs whose payloads cannot be confused with session text
             cases.append(p)
@@ -68,9 +75,13 @@ def main(tier, seed):
             for c in cuts + [len(p)]:
                 lines.append(render_prog(p[prev:c], rng.choice([" ", "  ", " \t"]))); prev = c
             script = []
-            pre_clear = rng.random() < 0.15
-            if pre_clear:
-                script.append(render_prog(idiom_print(rng))); script.append("clear")
+            pre_clear = None
+            if rng.random() < 0.2:
+                # an earlier program that leaves labels, a return point, stack contents and a selected stack behind
+                q = rng.choice([idiom_print, idiom_forward_jump, idiom_stacks, idiom_multi, idiom_fraction])(rng)
+                if rng.random() < 0.6: q = q + idiom_loop(rng, rng.choice([3, 4, 5]))
+                pre_clear = q
+                script.append(render_prog(q)); script.append("clear")
             for l in lines:
                 r = rng.random()
                 if r < 0.15: script.append("")
@@ -79,11 +90,14 @@ def main(tier, seed):
                 script.append(l)
             scripts.append("\n".join(script) + ("\n" if rng.random() < 0.9 else ""))
             metas.append((p, rec, pre_clear))
+        # whole runs of the programs entered before `clear`
+        pre_idx = [i for i, (_, _, q) in enumerate(metas) if q is not None]
+        pre_runs = dict(zip(pre_idx, model_exec(["one %s - 3000" % enc_prog(metas[i][2]) for i in pre_idx], spec=True))) if pre_idx else {}
         with ThreadPoolExecutor(max_workers=NCPU) as ex:
             outs = list(ex.map(run_repl, [(s, 10) for s in scripts]))
         model = model_lines(["m.repl " + enc_text(s) for s in scripts], timeout=300, chunks=64)
         ends = {}
-        for s, (p, rec, pre_clear), (so, se, rc), m in zip(scripts, metas, outs, model):
+        for si, (s, (p, rec, pre_clear), (so, se, rc), m) in enumerate(zip(scripts, metas, outs, model)):
             rep.count("repl-sessions")
             if unjudged(m):
                 rep.count("skipped-resource-limit"); continue
@@ -98,7 +112,14 @@ def main(tier, seed):
             # property oracle: what the session shows = what the whole run writes
             whole_o, whole_e, whole_end = summarize(rec)
             wo, we = dec_text(whole_o or "-"), dec_text(whole_e or "-")
-            if not pre_clear and "[std" not in wo + we and "> " not in wo + we:
+            pre_ok = True
+            if pre_clear is not None:
+                # `clear` returns to the initial state: the session shows the earlier program's text, then exactly the whole run's
+                qrec = pre_runs.get(si, "END cut")
+                qo, qe, qend = summarize(qrec)
+                pre_ok = (qend == "ok") and not unjudged(qrec)
+                wo, we = dec_text(qo or "-") + wo, dec_text(qe or "-") + we
+            if pre_ok and "[std" not in wo + we and "> " not in wo + we:
                 sh = shown_streams(so)
                 so_, se_ = sh if sh else (None, None)
                 if (so_, se_) != (wo, we):
